@@ -79,6 +79,16 @@ def configs(tier):
                 if comb == 'sepsum' and sp != 'rn2':
                     continue
                 cfgs.append({'kind': comb, 'f1': f1, 'f2': f2, 'space': sp})
+    # factors / dividends that VANISH at points of the alphabet where their gradient does not: a
+    # linear functional (zero on a hyperplane) and |x|^2 - 1 (zero on the unit sphere)
+    for f1 in sorted(ADHOC):
+        for f2 in ('L2NormSquared', 'Huber', 'L2Norm'):
+            for sp in ('rn2', 'rn2wa'):
+                if f2 == 'Huber' and sp == 'rn2wa':
+                    continue        # Huber.gradient on array-weighted spaces: see the Huber spec
+                for comb in ('product', 'quotient'):
+                    cfgs.append({'kind': comb, 'f1': f1, 'f2': f2, 'space': sp})
+                cfgs.append({'kind': 'product', 'f1': f2, 'f2': f1, 'space': sp})
     for b in pool + ['LpNorm', 'ConstantFunctional']:
         for opn in OPS:
             for sp in (['rn3', 'ud3', 'rn3wa'] if not thorough else ['rn3', 'ud3', 'rn3wa',
@@ -113,6 +123,29 @@ def configs(tier):
                     cfgs.append({'kind': 'simple', 'space': sp, 'form': form, 'given': given,
                                  'conj': 1})
     return cfgs
+
+
+class _Adhoc(object):
+    opts = [{}]
+    posdom = False
+    dom = None
+
+    def __init__(self, build, ref):
+        self.build, self.ref = build, ref
+
+
+_LB = [1.0, -1.0, 2.0, -0.5]
+ADHOC = {
+    '@linear': _Adhoc(
+        lambda sp, o: odl.solvers.QuadraticForm(vector=S.from_flat(sp, np.resize(_LB, S.flat_size(sp)))),
+        lambda info, o: (lambda z: info.inner(z, np.resize(_LB, info.n)))),
+    '@l2sq-1': _Adhoc(lambda sp, o: odl.solvers.L2NormSquared(sp) - 1.0,
+                      lambda info, o: (lambda z: info.norm2(z) - 1.0)),
+}
+
+
+def _spec(name):
+    return ADHOC[name] if name in ADHOC else FR.BY_NAME[name]
 
 
 def _sk(name):
@@ -215,7 +248,7 @@ def _build(cfg):
                 dom = (lambda dm, arg: (lambda z: dm(arg(z))))(dom, d['arg'])
         return dict(f=f, info=info, ref=ref, V=spec.V, dom=dom)
     if k in ('sum', 'product', 'quotient', 'sepsum'):
-        s1, s2 = FR.BY_NAME[cfg['f1']], FR.BY_NAME[cfg['f2']]
+        s1, s2 = _spec(cfg['f1']), _spec(cfg['f2'])
         o1, o2 = s1.opts[0], s2.opts[0]
         info = FR.info(cfg['space'])
         f1, f2 = s1.build(info.space, o1), s2.build(info.space, o2)
@@ -479,6 +512,50 @@ def run(cfg):
             base.append(x)
             G.append(g)
             nsig += 1
+    # (b') the same at base points of tiny magnitude (x * 2^-30, steps scaled alike): exact tests in
+    # a gradient ("norm == 0") must not be tolerance-based ones.  Only where the values themselves
+    # are of the order of the scale (norms, Huber, quadratic terms), so that the difference
+    # quotients keep their accuracy; smooth (not merely C^{1,1}) functionals only.
+    if grad is not None and B.get('c11') is None:
+        sc = 2.0 ** -30
+        ntiny = 0
+        # x0 and x0 +- H1 e_k are admissible (they are base points of (b)); the sets where the
+        # registry's functionals are not differentiable are cones through 0 or lie at distance O(1)
+        # from 0, so the scaled stencil is admissible too - and a stencil that did cross a kink
+        # fails the agreement test below and is not judged
+        for x0 in base:
+            if ntiny >= 6:
+                break
+            x = sc * np.asarray(x0, float)
+            vals = [ref(x)] + [ref(x + s_ * sc * H1 * eye[k]) for k in range(n) for s_ in (1, -1)]
+            if not all(np.isfinite(v) and abs(v) <= 64 * sc for v in vals):
+                skipped += 1
+                continue
+            try:
+                g = S.to_flat(grad(info.elem(x))).astype(float)
+            except Exception as e:
+                first.setdefault('gradient_raises:' + type(e).__name__,
+                                 'x=%s: %r' % (x.tolist(), e))
+                continue
+            ntiny += 1
+            evals += 1
+            for k in range(n):
+                ds = [(ref(x + sc * h * eye[k]) - ref(x - sc * h * eye[k])) / (2 * sc * h)
+                      for h in (H1, H2, H3)]
+                # at these step sizes the h^2 term is far below round-off for a smooth functional:
+                # the three quotients must agree with each other, otherwise the REFERENCE values
+                # are not accurate enough at this scale (exp(x) - 1 and the like) - undecided
+                rich = ds[0]
+                if not all(np.isfinite(d) for d in ds) or \
+                        max(abs(ds[1] - ds[0]), abs(ds[2] - ds[0])) > 1e-8 * (1 + abs(rich)):
+                    skipped += 1
+                    continue
+                evals += 1
+                if abs(w[k] * g[k] - rich) > 1e-6 * (1 + abs(rich)):
+                    first.setdefault('gradient_differs_from_directional_derivative',
+                                     'x=%s (tiny magnitude) direction e_%d: <grad,e>_W=%r, central '
+                                     'differences of the values with steps 2^-30 * (2^-6, 2^-9, 2^-12) '
+                                     'give %r, grad=%s' % (x.tolist(), k, w[k] * g[k], rich, g.tolist()))
     # (c) Lipschitz bound
     L = None
     try:
